@@ -7,6 +7,7 @@
 #include "hmac_cpp/hmac_utils.hpp"
 #include "hmac_cpp/encoding.hpp"
 #include "hmac_cpp/secret_string.hpp"
+#include <algorithm>
 #include <cerrno>
 #include <ctime>
 using namespace hmac_cpp;
@@ -119,8 +120,72 @@ static std::string sshist(const std::vector<std::string>& ops) {
     return out;
 }
 
+// ---------------------------------------------------------------- C17: library calls watched for secrets / derived values in released blocks
+// line: heap <api> <args...> @ <needle-hex>...   ; every needle is searched (8-byte windows) in every block released during the call
+static std::vector<Bytes> g_needle_store;
+static TypeHash th(const std::string& t) { return t == "sha1" ? TypeHash::SHA1 : t == "sha256" ? TypeHash::SHA256 : TypeHash::SHA512; }
+static Pbkdf2Hash ph(const std::string& t) { return t == "sha1" ? Pbkdf2Hash::Sha1 : t == "sha256" ? Pbkdf2Hash::Sha256 : Pbkdf2Hash::Sha512; }
+static secure_buffer<uint8_t> sbuf(const Bytes& b) { secure_buffer<uint8_t> s(b.size()); if (!b.empty()) memcpy(s.data(), b.data(), b.size()); return s; }
+static std::string heap_call(const std::vector<std::string>& a_in) {
+    std::vector<std::string> a = a_in;
+    for (size_t i = 0; i < a.size();) { if (a[i].compare(0, 2, "E=") == 0) a.erase(a.begin() + i); else ++i; }   // expectation marker for the model side
+    size_t at = 0; while (at < a.size() && a[at] != "@") ++at;
+    g_needle_store.clear(); for (size_t i = at + 1; i < a.size(); ++i) g_needle_store.push_back(bx(a[i]));
+    hw::clear_needles(); for (size_t i = 0; i < g_needle_store.size(); ++i) hw::add_needle(g_needle_store[i].data(), g_needle_store[i].size(), (int)i);
+    const std::string& f = a[1];
+    std::string outcome = "ok";
+    // arguments are materialised BEFORE the watch region opens, results are kept alive until it is closed
+    Bytes A2 = at > 3 ? bx(a[3]) : Bytes(), A3 = at > 4 ? bx(a[4]) : Bytes(), A4 = at > 5 ? bx(a[5]) : Bytes();
+    secure_buffer<uint8_t> S2 = sbuf(A2), S3 = sbuf(A3), S4 = sbuf(A4);
+    std::string str3 = str_of(A3), str4 = str_of(A4);
+    Bytes r1; std::string rs; secure_buffer<uint8_t, true> rsec; secure_buffer<uint8_t> rdec; KeyIv kiv; Pbkdf2Result pres; bool rb = false; int ri = 0;
+    uint32_t c32 = 0; size_t n1 = 0;
+    hw::begin(1);
+    try {
+        if (f == "hmac") r1 = get_hmac(A2.data(), A2.size(), A3.data(), A3.size(), th(a[2]));
+        else if (f == "hmac_securekey") rs = get_hmac(S2, str3, th(a[2]), false, false);
+        else if (f == "hmac_veckey") rs = get_hmac(A2, str3, th(a[2]), true, false);
+        else if (f == "hmacctx") { HmacContext c(th(a[2])); c.init(A2.data(), A2.size()); c.update(A3.data(), A3.size() / 2); c.update(A3.data() + A3.size() / 2, A3.size() - A3.size() / 2);
+                                    r1.resize(64); c.final(r1.data(), 64); c.init(A2.data(), A2.size()); }
+        else if (f == "pbkdf2") { c32 = (uint32_t)atol(a[5].c_str()); n1 = (size_t)atol(a[6].c_str()); r1 = pbkdf2(A2.data(), A2.size(), A3.data(), A3.size(), c32, n1, ph(a[2])); }
+        else if (f == "pbkdf2_secure") { c32 = (uint32_t)atol(a[5].c_str()); n1 = (size_t)atol(a[6].c_str()); rsec = pbkdf2_secure(A2.data(), A2.size(), A3.data(), A3.size(), c32, n1, ph(a[2])); }
+        else if (f == "pbkdf2_sbin") { c32 = (uint32_t)atol(a[5].c_str()); n1 = (size_t)atol(a[6].c_str()); r1 = pbkdf2(S2, S3, c32, n1, ph(a[2])); }
+        else if (f == "pbkdf2buf") { c32 = (uint32_t)atol(a[5].c_str()); n1 = (size_t)atol(a[6].c_str()); r1.resize(n1 ? n1 : 1); rb = pbkdf2(ph(a[2]), A2.data(), A2.size(), A3.data(), A3.size(), c32, r1.data(), n1); }
+        else if (f == "pepper") { c32 = (uint32_t)atol(a[6].c_str()); n1 = (size_t)atol(a[7].c_str()); r1 = pbkdf2_with_pepper(A2.data(), A2.size(), A3.data(), A3.size(), A4.data(), A4.size(), c32, n1, ph(a[2])); }
+        else if (f == "hkdfx") r1 = hkdf_extract_sha256(A2.data(), A2.size(), A3.empty() ? (const void*)0 : (const void*)A3.data(), A3.size());
+        else if (f == "hkdfx_secure") rsec = hkdf_extract_sha256_secure(S2, S3);
+        else if (f == "hkdfe") { n1 = (size_t)atol(a[5].c_str()); r1 = hkdf_expand_sha256(A2.data(), A2.size(), A3.data(), A3.size(), n1); }
+        else if (f == "hkdfe_secure") { n1 = (size_t)atol(a[5].c_str()); rsec = hkdf_expand_sha256_secure(A2.data(), A2.size(), A3.data(), A3.size(), n1); }
+        else if (f == "hkdfkiv") kiv = hkdf_key_iv_256(A2.data(), A2.size(), A3.data(), A3.size(), str4);
+        else if (f == "hotp") ri = get_hotp_code(A2.data(), A2.size(), 12345, atoi(a[4].c_str()), th(a[2]));
+        else if (f == "hotp_secure") ri = get_hotp_code(S2, 12345, 6, th(a[2]));
+        else if (f == "totpvalid") rb = is_totp_token_valid(123456, A2.data(), A2.size(), (uint64_t)1700000000, 30, 6, th(a[2]));
+        else if (f == "tokgen_vec") rs = generate_time_token(A2, atoi(a[4].c_str()), th(a[2]));
+        else if (f == "tokgen_secure") rs = generate_time_token(S2, atoi(a[4].c_str()), th(a[2]));
+        else if (f == "tokval_secure") rb = is_token_valid(std::string("00"), S2, atoi(a[4].c_str()), th(a[2]));
+        else if (f == "tokgenfp_secure") rs = generate_time_token(S2, std::string("fp"), atoi(a[4].c_str()), th(a[2]));
+        else if (f == "tokvalfp_secure") rb = is_token_valid(std::string("00"), S2, std::string("fp"), atoi(a[4].c_str()), th(a[2]));
+        else if (f == "b64dec_secure") rb = base64_decode(str_of(A2), rdec, a[2] == "1" ? Base64Alphabet::Url : Base64Alphabet::Standard, false, false);
+        else if (f == "b32dec_secure") rb = base32_decode(str_of(A2), rdec, false, false);
+        else if (f == "b36dec_secure") rb = base36_decode(str_of(A2), rdec);
+        else outcome = "HARNESS-unknown-api";
+    }
+    catch (const std::invalid_argument&) { outcome = "throw:invalid_argument"; }
+    catch (const std::overflow_error&) { outcome = "throw:overflow_error"; }
+    catch (const std::runtime_error&) { outcome = "throw:runtime_error"; }
+    catch (const std::bad_alloc&) { outcome = "throw:bad_alloc"; }
+    hw::Report rep = hw::end();
+    std::string res = outcome + " released=";
+    if (rep.dirty == 0) return res + "clean";
+    res += "dirty";
+    std::vector<int> ids = rep.ids; std::sort(ids.begin(), ids.end()); ids.erase(std::unique(ids.begin(), ids.end()), ids.end());
+    for (size_t i = 0; i < ids.size(); ++i) { char b[16]; snprintf(b, sizeof b, ":%d", ids[i]); res += b; }
+    return res;
+}
+
 static std::string run(const std::vector<std::string>& a) {
     const std::string& op = a[0];
+    if (op == "heap") return heap_call(a);
     if (op == "sshist") return sshist(std::vector<std::string>(a.begin() + 1, a.end()));
     if (op == "sbhist") { std::vector<std::string> ops(a.begin() + 2, a.end()); return a[1] == "1" ? SbHist<true>::run(ops) : SbHist<false>::run(ops); }
     throw std::logic_error("unknown op " + op);
